@@ -49,9 +49,10 @@ ASSUMPTIONS = [
     "region pixel (the bicubic map peaks at the centre of a cell, which need not be a region pixel)",
     "HSIC cases are generated with positive scores (the unchanged tree returns NaN when the median output is 0: "
     "RBF width = median; known finding, not exercised)",
-    "exact-zero clause of Sobol is claimed for the Jansen estimator (default) only: Homma / Saltelli give 1/n, Glen "
-    "-1/(n-1), Janon a non-zero value on inert cells because xplique mixes the unbiased variance with 1/n moments "
-    "(C05_sobol_zero_inert_other_estimators_refuted)",
+    "exact-zero clause of Sobol: bit-exact 0.0 for Jansen (default); for Homma / Saltelli / Janon / Glen the formula "
+    "is 0 in exact arithmetic (C05_sobol_zero_inert) but its float64 evaluation cancels var - mean(a*c) + mu^2: checked "
+    "with |value| <= 1e-6 * max(1, max |map|) on the estimator applied to the float64 recorded outputs (as found, "
+    "before /repo 469446f / 124b443, these gave 1/n resp. -1/(n-1): corpus/C05, C05_sobol_zero_inert_refuted_orig)",
 ]
 EXTRA_COVERAGE = {"clauses_checked": {}, "clauses_skipped_under_margin_guard": {}}
 
@@ -186,8 +187,11 @@ def gen_sobol(rng, tier, stream="sobol"):
     pert = rng.choice(PERTS)
     params, x = gen_region_model(rng, h, w, c, rect)
     total = n * (g * g + 2)
+    est = rng.choice(["default", "Jansen", "Jansen"] + SOBOL_ESTS)
+    if est not in ("default", "Jansen"):
+        n = rng.choice([8, 16, 32])
     return dict(stream=stream, shape=[h, w, c], rect=rect, params=params, x=x, g=g, n=n, pert=pert,
-                sampler=rng.choice(RS_SAMPLERS), est=rng.choice(["default", "Jansen", "Jansen"] + SOBOL_ESTS),
+                sampler=rng.choice(RS_SAMPLERS), est=est,
                 bs=rng.choice([1, 3, max(1, total - 1), total, total + 1, 256, rng.randint(1, total + 1)]))
 
 
@@ -195,7 +199,7 @@ def gen_hsic(rng, tier):
     h, w, c = gen_shape(rng)
     rect = gen_rect(rng, h, w)
     g = rng.choice([2, 2, 3, 3, 4])
-    n = rng.choice([32, 48, 64])
+    n = rng.choice([64, 96, 128])
     est = rng.choice(["default", "Binary", "Sobolev", "Rbf"])
     binary = True if est in ("default", "Binary") else rng.random() < 0.3
     params, x = gen_region_model(rng, h, w, c, rect)
@@ -643,22 +647,40 @@ def term_gsa_region(case, res):
     R = rect_term(case)
     s = case["stream"]
     act = active_cells(case)
-    jansen = s == "sobol" and case["est"] in ("default", "Jansen")
+    sobol = s == "sobol"
+    jansen = sobol and case["est"] in ("default", "Jansen")
+    active = f"(fun i => negb (inert_cell {geo} R i))"
     clauses = [f"Nat.eqb (length low) ({cn(g)} * {cn(g)})", f"Nat.eqb (length final) ({cn(h)} * {cn(w)})"]
-    if jansen:
-        clauses.append(f"zero_onb (inert_cell {geo} R) low")
-        clauses.append(f"max_insideb (q 0 1) ({cn(g)} * {cn(g)}) (fun i => negb (inert_cell {geo} R i)) low")
-        note(s, "low:exact_zero+max_at_active_cell", True)
+    nfixed = len(clauses)
     ins, outs = margin(res["low"], act)
-    guard_ok = outs is None or (ins > 0 and ins - outs >= GUARD_LOW * abs(ins))
-    if not jansen:
-        if guard_ok:
-            clauses.append(f"max_insideb (q 0 1) ({cn(g)} * {cn(g)}) (fun i => negb (inert_cell {geo} R i)) low")
-        note(s, "low:max_at_active_cell", guard_ok)
-    if guard_ok:
+    scale = max(abs(ins), abs(outs or 0.0), 1e-30)
+    if jansen:
+        # proved: C05_sobol_zero_inert, C05_sobol_inert_minimal (no guard)
+        clauses.append(f"zero_onb (inert_cell {geo} R) low")
+        clauses.append(f"max_insideb (q 0 1) ({cn(g)} * {cn(g)}) {active} low")
+        note(s, "low:exact_zero+max_at_active_cell", True)
+    elif sobol:
+        # proved in exact arithmetic (C05_sobol_zero_inert); float64 evaluation of var - mean(a*c) + mu^2 etc. rounds
+        tol = core.cq(float(np.float32(1e-6 * max(1.0, scale))))
+        clauses.append(f"small_onb {tol} (inert_cell {geo} R) low")
+        note(s, "low:zero_up_to_rounding", True)
+    clear = outs is None or abs(ins - outs) >= GUARD_LOW * scale          # symmetric: a clear defeat is a violation
+    support = outs is None or ins - outs >= GUARD_LOW * scale             # one-sided: support evidence only
+    if s == "hsic":
+        if clear:
+            clauses.append(f"max_insideb (q 0 1) ({cn(g)} * {cn(g)}) {active} low")
+        note(s, "low:max_at_active_cell", clear)
+    elif not jansen:
+        # Homma / Saltelli / Janon / Glen are high-variance estimators (an active cell can come out negative while
+        # the inert ones are 0): statistical clause, one-sided guard
+        if support:
+            clauses.append(f"max_insideb (q 0 1) ({cn(g)} * {cn(g)}) {active} low")
+        note(s, "low:max_at_active_cell(one-sided guard)", support)
+    ok_final = support if (sobol and not jansen) else clear
+    if ok_final:
         clauses.append(f"max_insideb (q 0 1) ({cn(h)} * {cn(w)}) (active_block {geo} R) final")
-    note(s, "final:max_in_active_blocks", guard_ok)
-    if len(clauses) == 2:
+    note(s, "final:max_in_active_blocks", ok_final)
+    if len(clauses) == nfixed:
         return None
     return (f"let R := {R} in let low := {core.cqlist(res['low'])} in let final := {core.cqlist(res['final'])} in "
             + " && ".join(clauses))
@@ -684,8 +706,10 @@ def term_lime(case, res):
         clauses.append(f"max_insideb {core.cq(float(np.float32(1e-4 * scale)))} {npos} R m")
         note(s, "additive:zero_on_inert_segments+max_inside", True)
     else:
-        ok = outs is None or (ins > 0 and ins - outs >= 0.1 * abs(ins)) or abs(ins - outs) <= 1e-6 * abs(ins)
-        # ties (an outside position sharing its segment with a region position) are exact: same gathered value
+        sc = max(abs(ins), abs(outs or 0.0), 1e-30)
+        # symmetric guard (a clear defeat is a violation); ties (an outside position sharing its segment with a
+        # region position) are exact: same gathered value
+        ok = outs is None or abs(ins - outs) >= 0.1 * sc or abs(ins - outs) <= 1e-6 * sc
         if ok:
             clauses.append(f"max_insideb (q 0 1) {npos} R m")
         note(s, "max_inside", ok)
